@@ -142,7 +142,7 @@ struct Config {
 	bool thorough = false;
 	uint64_t baseSeed = 1;
 	int jobs = 16;
-	std::string evidencePath, knownPath, replayDir, scratchBase, onlyFamily;
+	std::string evidencePath, knownPath, replayDir, scratchBase, onlyFamily, fpLog;
 	uint64_t countOverride = 0;
 	std::string self;
 	double shrinkBudgetS = 120;
@@ -616,6 +616,7 @@ int superviseMain(int argc, char** argv) {
 		else if (a == "--scratch") cfg.scratchBase = next();
 		else if (a == "--family") cfg.onlyFamily = next();
 		else if (a == "--count") cfg.countOverride = parseU64(next());
+		else if (a == "--fplog") cfg.fpLog = next();
 		else throw std::runtime_error("unknown option " + a);
 	}
 	if (cfg.prop.empty()) throw std::runtime_error("--property required");
@@ -654,6 +655,7 @@ int superviseMain(int argc, char** argv) {
 	std::vector<WorkerState> ws(static_cast<size_t>(W));
 	std::vector<PartAgg> agg(parts.size());
 	std::vector<Cand> cands;
+	std::vector<std::string> fpLines;
 	std::vector<std::string> infraErrors;
 	bool stopEarly = false;
 
@@ -693,6 +695,7 @@ int superviseMain(int argc, char** argv) {
 			if (nt) { a.nontrivialRuns++; a.fps.insert(strtoull(fp.c_str(), nullptr, 16)); }
 			a.scheds.insert(strtoull(sc.c_str(), nullptr, 16));
 			a.sweepDistinct += dev;
+			if (!cfg.fpLog.empty()) { char b[160]; snprintf(b, sizeof b, "%02zu %010llu %s %s %d %llu", part, idx, fp.c_str(), sc.c_str(), nt, ev); fpLines.push_back(b); }
 			st.lastK = globalK(part, idx); st.haveLast = true;
 		} else if (tag == 'V') {
 			size_t part; unsigned long long idx; std::string clause; size_t op;
@@ -795,6 +798,12 @@ int superviseMain(int argc, char** argv) {
 		}
 	}
 	if (wallHit) infraErrors.push_back("wall-clock safety cap hit before the fixed run range was completed");
+
+	if (!cfg.fpLog.empty()) {
+		std::sort(fpLines.begin(), fpLines.end());
+		std::ofstream f(cfg.fpLog);
+		for (auto& l : fpLines) f << l << "\n";
+	}
 
 	// ---- gate, minimise, report ----
 	int exitCode = 0;
